@@ -38,6 +38,7 @@ import (
 	tabula "github.com/tsawler/tabula"
 	"github.com/tsawler/tabula/contentstream"
 	"github.com/tsawler/tabula/core"
+	"github.com/tsawler/tabula/font"
 	"github.com/tsawler/tabula/format"
 	"github.com/tsawler/tabula/reader"
 )
@@ -53,14 +54,16 @@ type rFault struct {
 type rCase struct {
 	Special string `json:"special,omitempty"` // hand-shaped reference cycles through /Length
 	// one of
-	Toks   []string `json:"toks,omitempty"`
-	Bad    string   `json:"bad,omitempty"`
-	Ends   []string `json:"ends,omitempty"`
-	Graph  [][]int  `json:"graph,omitempty"`
-	Fmt    string   `json:"fmt,omitempty"`
-	Faults []rFault `json:"faults,omitempty"`
-	K      int      `json:"k,omitempty"`   // selector denominator
-	All    bool     `json:"all,omitempty"` // iterate every site of the first fault's kind
+	Toks     []string `json:"toks,omitempty"`
+	Bad      string   `json:"bad,omitempty"`
+	Ends     []string `json:"ends,omitempty"`
+	CMapToks []string `json:"cmaptoks,omitempty"`
+	Tight    []string `json:"tight,omitempty"`
+	Graph    [][]int  `json:"graph,omitempty"`
+	Fmt      string   `json:"fmt,omitempty"`
+	Faults   []rFault `json:"faults,omitempty"`
+	K        int      `json:"k,omitempty"`   // selector denominator
+	All      bool     `json:"all,omitempty"` // iterate every site of the first fault's kind
 }
 
 type callOutcome struct {
@@ -777,6 +780,19 @@ func payloadBoundaries(raw []byte, binary bool) []int {
 
 func payloadDamage(raw []byte, at int, bs []int, param string) []byte {
 	p := bs[at]
+	if strings.HasPrefix(param, "num=") {
+		// the number that starts at this boundary (an operand of the content stream, a count or code of a CMap program)
+		// replaced by an extreme value
+		end := len(raw)
+		if at+1 < len(bs) {
+			end = bs[at+1]
+		}
+		tok := raw[p:end]
+		if len(tok) == 0 || !regexp.MustCompile(`^-?[0-9]+$`).Match(tok) {
+			return raw
+		}
+		return append(append(append([]byte{}, raw[:p]...), []byte(param[4:])...), raw[end:]...)
+	}
 	switch param {
 	case "cutsp":
 		return append(append([]byte{}, raw[:p]...), ' ')
@@ -934,6 +950,24 @@ func runEntries(path string, data []byte) []callOutcome {
 	out = append(out, guarded("IsCharacterLevel", func() error { _, err := tabula.Open(path).IsCharacterLevel(); return err }))
 	out = append(out, guarded("ExcludeHF", func() error { _, _, err := tabula.Open(path).ExcludeHeadersAndFooters().Text(); return err }))
 	if strings.HasSuffix(path, ".pdf") {
+		// the text modes and the remaining layout views: every one has a page loop and a renderer of its own
+		out = append(out, guarded("PreserveLayout", func() error { _, _, err := tabula.Open(path).PreserveLayout().Text(); return err }))
+		out = append(out, guarded("ByColumn", func() error { _, _, err := tabula.Open(path).ByColumn().Text(); return err }))
+		out = append(out, guarded("JoinParagraphs", func() error { _, _, err := tabula.Open(path).JoinParagraphs().Text(); return err }))
+		out = append(out, guarded("ReadingOrder", func() error { _, err := tabula.Open(path).ReadingOrder(); return err }))
+		out = append(out, guarded("Paragraphs", func() error { _, err := tabula.Open(path).Paragraphs(); return err }))
+		out = append(out, guarded("LayoutViews", func() error {
+			_, e1 := tabula.Open(path).Headings()
+			_, e2 := tabula.Open(path).Lists()
+			_, e3 := tabula.Open(path).Blocks()
+			_, e4 := tabula.Open(path).IsMultiColumn()
+			for _, e := range []error{e1, e2, e3, e4} {
+				if e != nil {
+					return e
+				}
+			}
+			return nil
+		}))
 		out = append(out, guarded("ResolveDeep", func() error {
 			rd, err := reader.Open(path)
 			if err != nil {
@@ -1267,6 +1301,33 @@ func c02RunCase(idx int, c *rCase, announce func(sub int)) caseResult {
 		dir = os.TempDir()
 	}
 	switch {
+	case c.Special == "xml-case-shrink":
+		// XHTML whose head holds letters that get SHORTER in UTF-8 when upper-cased (dotless i, long s, U+1FBE, U+2C65):
+		// a bound computed on the bytes as read does not fit the case-folded copy. Short documents (one such letter) and
+		// long ones (many in the head), under every extension the detector may be asked about.
+		res.Faulty = true
+		docs := map[string]string{
+			"short-dotless-i": "<?xml version=\"1.0\" encoding=\"UTF-8\"?>\n<html xmlns=\"http://www.w3.org/1999/xhtml\"><head><title>Kap\u0131</title></head><body><p>" + c20Token + "</p></body></html>",
+			"short-long-s":    "<?xml version=\"1.0\"?><html xmlns=\"http://www.w3.org/1999/xhtml\"><head><title>Wa\u017f\u017fer \u1fbe \u2c65\u2c66</title></head><body><p>" + c20Token + "</p></body></html>",
+			"long-head":       "<?xml version=\"1.0\" encoding=\"UTF-8\"?>\n<!-- " + strings.Repeat("\u0131\u017f", 40) + " -->\n<html xmlns=\"http://www.w3.org/1999/xhtml\"><head><title>t</title></head><body>" + strings.Repeat("<p>"+c20Token+" filler text to make the document longer than the sniffing window</p>", 12) + "</body></html>",
+			"growing-upper":   "<?xml version=\"1.0\"?><html xmlns=\"http://www.w3.org/1999/xhtml\"><head><title>Stra\u00dfe \ufb01\ufb02 \u0149</title></head><body><p>" + c20Token + "</p></body></html>",
+		}
+		names := make([]string, 0, len(docs))
+		for k := range docs {
+			names = append(names, k)
+		}
+		sort.Strings(names)
+		for _, k := range names {
+			for _, ext := range []string{".html", ".xhtml", ".pdf", ".docx", ".epub"} {
+				p := filepath.Join(dir, fmt.Sprintf("c02-%d-%d-%s%s", os.Getpid(), idx, k, ext))
+				os.WriteFile(p, []byte(docs[k]), 0o644)
+				for _, o := range runEntries(p, []byte(docs[k])) {
+					o.Entry = k + ext + ":" + o.Entry
+					res.Calls = append(res.Calls, o)
+				}
+				os.Remove(p)
+			}
+		}
 	case c.Special != "":
 		files, err := specialPDFs(c.Special)
 		if err != nil {
@@ -1310,6 +1371,32 @@ func c02RunCase(idx int, c *rCase, announce func(sub int)) caseResult {
 				return err
 			}))
 		}
+	case c.CMapToks != nil:
+		var sb strings.Builder
+		for k, t := range c.CMapToks {
+			join := "sp"
+			if k > 0 && k-1 < len(c.Tight) {
+				join = c.Tight[k-1]
+			}
+			switch {
+			case k == 0:
+			case join == "sp":
+				sb.WriteByte(' ')
+			case join == "share" && sb.Len() > 0 && t != "" && sb.String()[sb.Len()-1] == t[0]:
+				t = t[1:] // the two tokens share that letter
+			}
+			sb.WriteString(t)
+		}
+		prog := []byte(sb.String())
+		res.Faulty = true
+		res.Calls = append(res.Calls, guarded("font.ParseToUnicodeCMap", func() error {
+			cm, err := font.ParseToUnicodeCMap(&core.Stream{Dict: core.Dict{}, Data: prog})
+			if err == nil && cm != nil {
+				cm.LookupString([]byte{0x00, 0x41, 0xff})
+				(&font.Font{Name: "F", ToUnicodeCMap: cm}).DecodeString([]byte{0x41})
+			}
+			return err
+		}))
 	case c.Graph != nil:
 		files, err := graphPDFs(c.Graph)
 		if err != nil {
